@@ -324,38 +324,50 @@ func (h *Hub) coordinateConnectionInitations(ski string, entry *api.MdnsEntry) {
 // invoked by coordinateConnectionInitations either with a delay or directly
 // when initating a pairing process
 func (h *Hub) prepareConnectionInitation(ski string, counter int, entry *api.MdnsEntry) {
+	reannounce := h.runConnectionInitation(ski, counter, entry)
+
+	// the attempt is running until it succeeded or failed: clearing the flag earlier allows a further mDNS report
+	// to start a second connection attempt to the same service while this one is still being established
 	h.setConnectionAttemptRunning(ski, false)
 
+	if reannounce {
+		h.checkAutoReannounce()
+	}
+}
+
+// run a connection attempt, returns if mDNS should be checked for not connected paired services afterwards
+func (h *Hub) runConnectionInitation(ski string, counter int, entry *api.MdnsEntry) bool {
 	// the hub may have been shut down while this attempt was delayed
 	if h.checkIsShutdown() {
-		return
+		return false
 	}
 
 	// check if the current counter is still the same, otherwise this counter is irrelevant
 	currentCounter, exists := h.getCurrentConnectionAttemptCounter(ski)
 	if !exists || currentCounter != counter {
-		return
+		// the counter was reset while this attempt was delayed, e.g. because a connection was closed after a
+		// completed handshake. mDNS reports arriving in the meantime were ignored because of this attempt,
+		// so make sure a still paired but not connected service gets a new attempt
+		return true
 	}
 
 	// connection attempt is not relevant if the device is no longer paired
 	// or it is not queued for pairing
 	pairingState := h.ServiceForSKI(ski).ConnectionStateDetail().State()
 	if !h.IsRemoteServiceForSKIPaired(ski) && pairingState != api.ConnectionStateQueued {
-		return
+		return false
 	}
 
 	// connection attempt is not relevant if the device is already connected
 	if h.isSkiConnected(ski) {
-		return
+		return false
 	}
 
 	// now initiate the connection
 	// check if the remoteService still exists
 	service := h.ServiceForSKI(ski)
 
-	if success := h.initateConnection(service, entry); !success {
-		h.checkAutoReannounce()
-	}
+	return !h.initateConnection(service, entry)
 }
 
 // attempt to establish a connection to a remote service
